@@ -29,29 +29,33 @@
 (***************************************************************************)
 EXTENDS Integers, Sequences, FiniteSets
 
-IntKinds   == {"int8", "int16", "int32", "int64", "int"}
-UintKinds  == {"uint8", "uint16", "uint32", "uint64", "uint"}
-FloatKinds == {"float32", "float64"}
+(* "n..." : a named Go type over the basic kind (type NamedU16 uint16): marshals *)
+(* and unmarshals like the basic kind, alone and as the element of slices and    *)
+(* arrays                                                                        *)
+IntKinds   == {"int8", "int16", "int32", "int64", "int", "nint64"}
+UintKinds  == {"uint8", "uint16", "uint32", "uint64", "uint", "nuint16"}
+FloatKinds == {"float32", "float64", "nfloat32"}
 NumKinds   == IntKinds \cup UintKinds \cup FloatKinds
 KeyLeaves  == {"bool", "int8", "int64", "uint16", "uint64", "string", "uid", "ctime"}
 OtherLeaves == {"bytes", "time", "bigint", "pbigint", "bigfloat", "apd", "dfloat", "url", "media", "iface", "float32", "float64",
-                "int16", "int32", "int", "uint8", "uint32", "uint", "node", "edge"}
+                "int16", "int32", "int", "uint8", "uint32", "uint", "node", "edge",
+                "nuint16", "nint64", "nfloat32", "nstring"}
 Leaves == KeyLeaves \cup OtherLeaves
 
 Leaf(k) == [k |-> k]
 
 (* the typed-array type a numeric element kind maps to *)
 ArrayTypeOf(k) ==
-  CASE k = "int8" -> "ai8" [] k = "int16" -> "ai16" [] k = "int32" -> "ai32" [] k \in {"int64", "int"} -> "ai64"
-    [] k = "uint8" -> "au8" [] k = "uint16" -> "au16" [] k = "uint32" -> "au32" [] k \in {"uint64", "uint"} -> "au64"
-    [] k = "float32" -> "af32" [] k = "float64" -> "af64" [] k = "bool" -> "abit"
+  CASE k = "int8" -> "ai8" [] k = "int16" -> "ai16" [] k = "int32" -> "ai32" [] k \in {"int64", "int", "nint64"} -> "ai64"
+    [] k = "uint8" -> "au8" [] k \in {"uint16", "nuint16"} -> "au16" [] k = "uint32" -> "au32" [] k \in {"uint64", "uint"} -> "au64"
+    [] k \in {"float32", "nfloat32"} -> "af32" [] k = "float64" -> "af64" [] k = "bool" -> "abit"
 
 (* event class of a leaf value *)
 LeafEvent(k) ==
   CASE k = "bool" -> "bool"
     [] k \in IntKinds \cup UintKinds \cup {"bigint", "pbigint"} -> "int"
     [] k \in FloatKinds \cup {"bigfloat", "apd", "dfloat"} -> "float"
-    [] k = "string" -> "string" [] k = "bytes" -> "arr:au8" [] k \in {"time", "ctime"} -> "time"
+    [] k \in {"string", "nstring"} -> "string" [] k = "bytes" -> "arr:au8" [] k \in {"time", "ctime"} -> "time"
     [] k = "url" -> "rid" [] k = "uid" -> "uid" [] k = "media" -> "media" [] k = "iface" -> "int"
 
 Count(vc) == CASE vc = "empty" -> 0 [] vc = "one" -> 1 [] vc = "many" -> 3 [] vc = "long" -> 17
@@ -66,7 +70,7 @@ IsEmptyVal(t, vc) ==
   CASE t.k = "ptr" -> vc = "nil"
     [] t.k \in {"slice", "map"} -> vc = "empty"
     [] t.k = "bytes" -> vc = "empty"
-    [] t.k = "string" -> vc = "empty"
+    [] t.k \in {"string", "nstring"} -> vc = "empty"
     [] t.k = "array" -> FALSE              \* arrays have a fixed, non-zero length here
     [] t.k = "iface" -> FALSE              \* always holds a value in the enumeration
     [] OTHER -> FALSE
@@ -106,6 +110,6 @@ VClassesFor(t) ==
     [] t.k = "map" -> {"empty", "one", "many", "long"}
     [] t.k = "array" -> {"many"}
     [] t.k = "struct" -> {"empty", "one", "many", "long", "nil"}
-    [] t.k \in {"string", "bytes"} -> {"empty", "one", "long"}
+    [] t.k \in {"string", "nstring", "bytes"} -> {"empty", "one", "long"}
     [] OTHER -> {"one"}
 =============================================================================
